@@ -7,6 +7,8 @@ package tests_test
 //                                    1 base unit + 4e-18 x (staked total of the asset + the value): 18-digit ratios are taken against the asset total
 //   actor_moves_the_amount         - the actor's reported value moves by the amount, never by more, within the same tolerance
 //   values_sum_below_staked_total  - the reported values of all positions of an asset sum to at most its staked total + 1 per position
+//   slashed_positions_scaled_by_one_minus_f_times_g, other_positions_scaled_by_g (C06) - a slash by f < 1 scales the slashed validator's positions by
+//                                    (1-f) x g and every other position by g = total / (total - f x validator's value), within the same tolerance
 //   reported_balance_can_be_undelegated, undelegating_the_reported_balance_does_not_panic (on a branch) - every position with a positive
 //                                    reported balance can undelegate exactly that balance; reported_balance_minus_tolerance_can_be_undelegated
 //   anyone_can_enter (on a branch) - 1 base unit and a large amount can be delegated to every validator
@@ -148,6 +150,10 @@ func TestBoundedPositions(t *testing.T) {
 			desc := ""
 			var actorKeys []key
 			isUserOp := true
+			slashedVal, slashFrac := -1, math.LegacyZeroDec()
+			var assetBefore types.AllianceAsset
+			slashedValTokens := math.LegacyZeroDec()
+			excluded := map[key]bool{}
 			wantDelta := map[key]math.Int{}
 			cctx, write := ctx.CacheContext()
 			var err error
@@ -224,6 +230,31 @@ func TestBoundedPositions(t *testing.T) {
 				if f.Equal(math.LegacyOneDec()) {
 					fullSlash = true
 				}
+				slashedVal, slashFrac = vi, f
+				assetBefore, _ = app.AllianceKeeper.GetAssetByDenom(ctx, AllianceDenom)
+				func() {
+					defer func() { _ = recover() }()
+					slashedValTokens = getVal(ctx, vals[vi]).TotalTokensWithAsset(assetBefore)
+				}()
+				// positions that a pending redelegation out of the slashed validator points to are reduced further (C07): not part of this fact
+				app.AllianceKeeper.IterateRedelegations(ctx, func(r types.Redelegation, ct time.Time) bool {
+					if r.SrcValidatorAddress == vals[vi].String() {
+						for ui2, u := range users {
+							if u.String() == r.DelegatorAddress {
+								for vi2, va := range vals {
+									if va.String() == r.DstValidatorAddress {
+										// the redelegated position is reduced further (C07) and what it loses is redistributed to the other positions on that validator
+										for ui3 := range users {
+											excluded[key{ui3, vi2}] = true
+										}
+										_ = ui2
+									}
+								}
+							}
+						}
+					}
+					return false
+				})
 				desc = fmt.Sprintf("history %d step %d: SlashValidator(val %d, %s)", hist, step, vi, f)
 				err, pan = try(func() error { return app.AllianceKeeper.SlashValidator(cctx, vals[vi], f) })
 			}
@@ -263,6 +294,33 @@ func TestBoundedPositions(t *testing.T) {
 			setRegime(ctx)
 			if sum.GT(asset.TotalTokens.AddRaw(int64(n)).Add(asset.TotalTokens.MulRaw(int64(4 * (n + 1))).Quo(pow10(18)))) {
 				fact("values_sum_below_staked_total", "%s: reported values sum to %s, staked total %s, %d positions", desc, sum, asset.TotalTokens, n)
+			}
+			if !isUserOp && slashedVal >= 0 && slashFrac.LT(math.LegacyOneDec()) {
+				// C06: positions on the slashed validator become (1-f) x g times their value, all others g times, where g keeps the staked total
+				tt := math.LegacyNewDecFromInt(assetBefore.TotalTokens)
+				denom := tt.Sub(slashFrac.Mul(slashedValTokens))
+				if denom.IsPositive() && tt.IsPositive() {
+					g := tt.Quo(denom)
+					for k, v0 := range before {
+						if v0.IsNegative() || excluded[k] {
+							continue
+						}
+						v1, ok := after[k]
+						if !ok || v1.IsNegative() {
+							continue
+						}
+						want := math.LegacyNewDecFromInt(v0).Mul(g)
+						name := "other_positions_scaled_by_g"
+						if k.v == slashedVal {
+							want = want.Mul(math.LegacyOneDec().Sub(slashFrac))
+							name = "slashed_positions_scaled_by_one_minus_f_times_g"
+						}
+						tolv := math.LegacyNewDecFromInt(tol(v0)).Add(math.LegacyNewDec(2)).Add(want.Mul(math.LegacyMustNewDecFromStr("0.000000000001")))
+						if math.LegacyNewDecFromInt(v1).Sub(want).Abs().GT(tolv) {
+							fact(name, "%s: position (user %d, val %d) went from %s to %s, expected %s (g = %s)", desc, k.u, k.v, v0, v1, want, g)
+						}
+					}
+				}
 			}
 			if isUserOp {
 				isActor := map[key]bool{}
